@@ -368,8 +368,12 @@ func saveLinkerToBase(garbleCache string) {
 	withLock(base+".lock", func() {
 		src := filepath.Join(garbleCache, "tool")
 		dst := filepath.Join(base, "garblecache", "tool")
-		if exists(filepath.Join(dst, "link.version")) || !exists(filepath.Join(src, "link.version")) {
+		srcVer, err := os.ReadFile(filepath.Join(src, "link.version"))
+		if err != nil {
 			return
+		}
+		if dstVer, err := os.ReadFile(filepath.Join(dst, "link.version")); err == nil && string(dstVer) == string(srcVer) {
+			return // already the linker the current garble accepts
 		}
 		os.RemoveAll(dst)
 		must(os.MkdirAll(dst, 0o755))
@@ -451,9 +455,7 @@ func (p *Pool) ensureWarm(g *GarbleBin, cfg Config, withTest bool) {
 			fmt.Fprintf(os.Stderr, "WARN: warming pool for %s failed:\n%s\n", cfg.Key(), r)
 			return
 		}
-		if !baseHasLinker() {
-			saveLinkerToBase(p.GCache)
-		}
+		saveLinkerToBase(p.GCache)
 		must(os.WriteFile(marker, []byte(cfg.Key()), 0o644))
 	})
 }
